@@ -125,7 +125,15 @@ def expand_items(view, x):
             # unconditional and outside loops
             cs = T.contents(view.effects, seq)
             if cs and all(k in ("one", "all") and e is not None and not circ.loops_of(e) and not circ.uncond_problems(e) for k, _, e in cs):
-                return [t for _, t, _ in cs], [k for k, _, _ in cs]
+                # `extend_from_slice(&[a, b])` / `extend([a, b])` append the elements of the literal, one by one
+                flat = []
+                for k, t, e in cs:
+                    tt = P.norm(t)
+                    if k == "all" and isinstance(tt, tuple) and tt and tt[0] == "array":
+                        flat += [("one", x) for x in tt[1]]
+                    else:
+                        flat.append((k, t))
+                return [t for _, t in flat], [k for k, _ in flat]
         return [it[1] for it in T.seq_items(seq)], [it[0] for it in T.seq_items(seq)]
     return [x], ["one"]
 
